@@ -3,6 +3,8 @@ package main
 import (
 	"fmt"
 	"go/types"
+	"sort"
+	"strings"
 
 	"golang.org/x/tools/go/ssa"
 )
@@ -15,6 +17,7 @@ func checkC09(p *Program, tier string) *Result {
 	ruleTablePerConnection(p, r)
 	ruleTableDeleteOnlyOwnSession(p, r)
 	ruleTableMutex(p, r)
+	ruleConnectionStateReadOnly(p, r)
 	ruleLoop(p, r, "de")
 	r.floor("R-LOOP", 4)
 	ruleContinuationStates(p, r)
@@ -150,4 +153,86 @@ func isDeferredByLoop(p *Program, fn *ssa.Function) bool {
 		}
 	}
 	return false
+}
+
+// ruleConnectionStateReadOnly: the objects that live as long as a connection and are shared by all of its
+// sessions (allocated by the connection functions outside the request loop: the stream wrapper, the session
+// table) have no field that is stored to after construction. Whatever one session's packet could leave
+// there, another session's reply could pick up. (The table's entries are per session and handled by the
+// who-may-delete/update rules; its map is not a field store.)
+func ruleConnectionStateReadOnly(p *Program, r *Result) {
+	ro := rolesOK(p, r)
+	perConn := map[*types.Named]string{}
+	scan := func(fn *ssa.Function) {
+		for _, b := range fn.Blocks {
+			if blockReachFromSelf(b) {
+				continue // inside the request loop: per request
+			}
+			for _, in := range b.Instrs {
+				call, ok := in.(*ssa.Call)
+				if !ok || call.Common().StaticCallee() == nil {
+					continue
+				}
+				pt, ok := call.Type().(*types.Pointer)
+				if !ok {
+					continue
+				}
+				n, ok := pt.Elem().(*types.Named)
+				if !ok || n.Obj().Pkg() == nil || n.Obj().Pkg().Path() != modPath {
+					continue
+				}
+				if _, isStruct := n.Underlying().(*types.Struct); !isStruct {
+					continue
+				}
+				perConn[n] = fnKey(fn)
+			}
+		}
+	}
+	for _, f := range ro.ConnFns {
+		scan(f)
+	}
+	for _, f := range ro.Loops {
+		scan(f)
+	}
+	if len(perConn) < 2 {
+		r.undecided("R-CONFINED", "connection-state", "-", "expected the stream wrapper and the session table to be created per connection; found %d per-connection types", len(perConn))
+		return
+	}
+	var names []string
+	for n := range perConn {
+		names = append(names, n.Obj().Name())
+	}
+	sort.Strings(names)
+	nStores := 0
+	for _, fn := range p.FuncsIn(func(path string) bool { return path == modPath }) {
+		for _, b := range fn.Blocks {
+			for _, in := range b.Instrs {
+				st, ok := in.(*ssa.Store)
+				if !ok {
+					continue
+				}
+				fa, ok := st.Addr.(*ssa.FieldAddr)
+				if !ok {
+					continue
+				}
+				n := namedOf(fa.X.Type())
+				if n == nil || perConn[n] == "" {
+					continue
+				}
+				if k, _, _ := addrRoot(fa.X, 10); k == rootLocal {
+					continue // constructor
+				}
+				if (containsFn(ro.ConnFns, fn) || containsFn(ro.Loops, fn)) && !blockReachFromSelf(b) {
+					continue // connection set-up before the request loop
+				}
+				nStores++
+				f, _, _ := fieldAddrOf(fa)
+				r.bad("R-CONFINED", fnKey(fn)+":connection-state:"+n.Obj().Name()+"."+f.Name(), p.Pos(st.Pos()),
+					"field %s of the per-connection %s is written after construction: state left by one session's packet is visible to every other session of the connection", f.Name(), n.Obj().Name())
+			}
+		}
+	}
+	if nStores == 0 {
+		r.ok("R-CONFINED", "connection-state", "-", true, "the per-connection objects (%s) have no field stored to outside their constructors: sessions of a connection share no mutable connection-level state", strings.Join(names, ", "))
+	}
 }
